@@ -477,6 +477,11 @@ impl HalfConnection {
             rto_ms: self.send_rate_comp.rto_ms(),
         }
     }
+
+    /// (acked, nonce, rate_limited) of a frame still held in the sent-frame log (read-only)
+    pub fn verif_sent_frame(&self, frame_id: u32) -> Option<(bool, bool, bool)> {
+        self.frame_queue.verif_sent_frame(frame_id)
+    }
 }
 
 // Internal Rc objects are unique to this object
